@@ -1317,6 +1317,9 @@ func toString(v interface{}) string {
 		return strconv.FormatInt(val, 10)
 	case float64:
 		return strconv.FormatFloat(val, 'f', -1, 64)
+	case float32:
+		// (as the print tag writes it)
+		return strconv.FormatFloat(float64(val), 'f', -1, 32)
 	case bool:
 		return strconv.FormatBool(val)
 	case []byte:
